@@ -184,22 +184,19 @@ def r_passthrough(ck: Checker) -> None:
         itp = ck.interp(func, Pins.of(vals={f"{stm}.ast_type": "ASTType.External"}))
         got = {unparse(itp.expand(r.value, s)) if r.value is not None else "None" for r, s in itp.returns}
         ck.add(f"{func.name}: directives pass through", got == {stm}, func, func.node, f"for an #external statement returns {sorted(got)}", "directives appear verbatim", rule="C07.FLOW.passthrough")
-    # unused.project_unused applies transform to every statement (A-16)
-    pu = ck.func("unused:UnusedTranslator.project_unused")
-    itp = ck.interp(pu)
-    calls = resolved_calls(ck.prg, pu, "ngo.unused:UnusedTranslator._project_unused_stm")
-    ck.need(len(calls) == 1, "project_unused transforms statements at one site")
-    stm = unparse(calls[0].args[0])
-    ok = itp.holds(calls[0], f"{stm}.ast_type in (ASTType.Rule, ASTType.Minimize)")
-    ck.add("unused: only rules and objectives are projected", ok, pu, calls[0], f"`{fmt(calls[0])}` dominated by a Rule/Minimize test: {ok}",
-           "`#external a(X,Y) : d(X), d(Y).` becomes `#external a(X) : ...` when a/2 loses an unobserved position: directives are not verbatim", rule="C07.FLOW.directive-rewrite")
-    rs = ck.func("unused:UnusedTranslator.remove_single_copies")
-    its = ck.interp(rs)
-    tcalls = [c for c in resolved_calls(ck.prg, rs, "ngo.utils.ast:transform_ast") if enclosing_loop(rs, c) is not None]
-    if tcalls:
-        stm = unparse(tcalls[0].args[0])
-        ok = its.holds(tcalls[0], f"{stm}.ast_type in (ASTType.Rule, ASTType.Minimize)")
-        ck.add("unused: copy rules are unfolded in rules and objectives only", ok, rs, tcalls[0], f"`{fmt(tcalls[0])}` dominated by a Rule/Minimize test: {ok}", "directive bodies are rewritten as well", rule="C07.FLOW.directive-rewrite")
+    # directives stay verbatim only if everything they mention counts as observed: the usage scan must look at the
+    # atom of #external / #heuristic / #project statements (their bodies are scanned, see C09.EXHAUST.usage)
+    au = ck.func("unused:UnusedTranslator.analyze_usage")
+    loops = [x for x in find_nodes(au.node, lambda x: isinstance(x, ast.For)) if enclosing_loop(au, x) is None]
+    ck.need(len(loops) >= 1 and isinstance(loops[0].target, ast.Name), "analyze_usage loops over the program")  # type: ignore[attr-defined]
+    stm = loops[0].target.id  # type: ignore[attr-defined]
+    usage = resolved_calls(ck.prg, au, "ngo.unused:UnusedTranslator._add_usage", "ngo.unused:UnusedTranslator._add_usage_stm")
+    for kind in ("External", "Heuristic", "ProjectAtom"):
+        itk = ck.interp(au, Pins.of(vals={f"{stm}.ast_type": f"ASTType.{kind}"}))
+        hit = [c for c in usage if itk.reachable(c) and any(t == f"{stm}.atom" for t in itk.texts(c, c.args[0]))]
+        ck.add(f"unused: the atom of a #{kind.lower()} statement is observed", bool(hit), au, loops[0], f"with {stm}.ast_type == {kind}: usage of `{stm}.atom` recorded: {bool(hit)}",
+               "an argument position that only the directive's own atom uses is projected away and the directive is rewritten (`#external a(X,Y) : ...` becomes `#external a(X) : ...`): directives are not verbatim",
+               rule="C07.FLOW.directive-atoms")
     # loops of the passes: directive branch appends the statement itself
     for name in ("symmetry:SymmetryTranslator.execute", "minmax_aggregates:MinMaxAggregator.execute", "sum_aggregates:SumAggregator.execute", "projection:ProjectionTranslator.execute", "math_simplification:MathSimplification.execute", "unused:UnusedTranslator.remove_unused"):
         func = ck.func(name)
